@@ -191,6 +191,30 @@ def build_app(which, docroot):
         rec(req, "user")
         return "%s:%d:%s" % (name, n, sorted(req.path_args.items()))
 
+    # overlapping pattern routes: the more specific one registered first
+    @app.route("/ov/<uid:int>")
+    def ovint(req, uid):
+        rec(req, "ovint")
+        return "ovint-%d-%s" % (uid, req.uri_rule)
+
+    @app.route("/ov/<name:word>")
+    def ovword(req, name):
+        rec(req, "ovword")
+        return "ovword-%s-%s" % (name, req.uri_rule)
+
+    # a handler that merges the query into whatever containers the request
+    # offers (they belong to the request)
+    @app.route("/merge", method=511)
+    def merge(req):
+        out = []
+        for name in ("args", "form", "json", "cookies", "path_args"):
+            cont = getattr(req, name, None)
+            if isinstance(cont, dict):
+                out.append((name, sorted((str(k), str(v))
+                                         for k, v in cont.items())))
+                cont["seen-" + req.query] = req.method
+        return repr(out)
+
     @app.route("/cookie")
     def cookie(req):
         sess = PoorSession(app.secret_key)
@@ -298,6 +322,12 @@ KINDS = {
     "getonly": dict(path="/getonly"),
     "odd299": dict(path="/odd299"),
     "set299": dict(path="/set299"),
+    "ovword": dict(path="/ov/bob"),
+    "ovint": dict(path="/ov/42"),
+    "merge1": dict(path="/merge", query="q=1"),
+    "merge2": dict(path="/merge", query="q=2"),
+    "mergepost": dict(method="POST", path="/merge", query="p=1"),
+    "mergenoargs": dict(method="PUT", path="/merge"),
     "user": dict(path="/user/bob/7"),
     "usermiss": dict(path="/user/bob/x"),
     "cookie": dict(path="/cookie"),
@@ -579,8 +609,15 @@ def run(ctx):
         seqs += rng.sample(triples, 300 if ctx.quick else 6000)
         if ctx.quick:
             seqs = seqs[:len(kinds)] + rng.sample(seqs[len(kinds):], 500)
+        # ordered pairs on one application that every run includes
+        must = [("ovword", "ovint"), ("ovint", "ovword", "ovint"),
+                ("merge1", "merge2"), ("merge1", "mergepost"),
+                ("mergepost", "mergenoargs"), ("mergenoargs", "merge2"),
+                ("authok", "authok2"), ("usermiss", "user"),
+                ("debugenv", "debug"), ("set299", "odd299")]
+        seqs += must
         for seq in seqs:
-            two = rng.random() < 0.4
+            two = rng.random() < 0.4 and seq not in must
             apps = {"A": build_app("A", tmp)}
             if two:
                 apps["B"] = build_app("B", tmp)
